@@ -1,4 +1,6 @@
 import OSProofs.Props.C09
+import OSProofs.Props.FL2
+import OSProofs.MonoArithInst
 #print axioms OS.predictWin_eq_winVal
 #print axioms OS.C09_length
 #print axioms OS.C09_entry
@@ -17,3 +19,14 @@ import OSProofs.Props.C09
 #print axioms OS.C09_monotone_team_other
 #print axioms OS.C09_monotone_own
 #print axioms OS.C09_monotone_other
+#print axioms OS.MonoArith.real
+#print axioms OS.MonoArith.rn
+#print axioms OS.truncRounding
+#print axioms OS.truncRounding_lossy
+#print axioms OS.truncRounding_ne_id
+#print axioms OS.MonoArith.fl1_gammaNonneg_of_tag
+#print axioms OS.FL_C09_two
+#print axioms OS.FL_C09_range
+#print axioms OS.FL_C09_range_two_or_more
+#print axioms OS.FL_C09_range_all
+#print axioms OS.FL_C09_length
